@@ -204,6 +204,17 @@ func c19Spelling(t *sim.Tape, p string) string {
 	case 2:
 		s = "/../" + s
 	}
+	// the unclean part may also be only the tail
+	switch t.Choose(6) {
+	case 1:
+		s += "/"
+	case 2:
+		s += "/."
+	case 3:
+		s += "/zz/.."
+	case 4:
+		s = "/" + strings.Join(segs, "/") + []string{"/", "/.", "/q/..", "//"}[t.Choose(4)]
+	}
 	return s
 }
 
